@@ -367,7 +367,18 @@ def sqlite_args(a):
     return a[:15] + a[17:]
 
 
-def run_sqlite(chk: Check, s1, s2):
+def big_state(a, rows, seed):
+    """the same save arguments with a long random history (params, losses, series, labels of `rows` samples)"""
+    g = np.random.default_rng(seed)
+    a = list(a)
+    d = np.asarray(a[17]).shape[1]
+    a[15] = rows
+    a[17] = g.random((rows, d)); a[18] = g.random(rows); a[19] = g.standard_normal((rows, 2, 50, 2))
+    a[20] = np.repeat(np.arange(rows // 4 + 1), 4)[:rows].astype(np.int64); a[21] = np.zeros(rows, dtype=np.int64)
+    return State(tuple(a), getattr(a, "kw", {}))
+
+
+def run_sqlite(chk: Check, s1, s2, label="short-history"):
     import sqlite3
     from black_it.utils import sqlite3_checkpointing as sq
 
@@ -427,7 +438,7 @@ def run_sqlite(chk: Check, s1, s2):
             reqs.append(f"ckpt.sql {'1 5' if have_prev else '0'} {midx[k]}")
         answers = lean_run(reqs)
         for (k, st, raised, out), ans in zip(outcomes, answers):
-            chk.case(["sqlite", have_prev, k], True, {"backend": "sqlite", "previous_checkpoint": have_prev, "exception_at_statement": st, "restore": out})
+            chk.case(["sqlite", label, have_prev, k], True, {"backend": "sqlite", "history": label, "previous_checkpoint": have_prev, "exception_at_statement": st, "restore": out})
             chk.count(f"sqlite:{'prev' if have_prev else 'empty'}:{out}")
             model = {"5": "prev", "999": "new", "": "prev"}.get(ans, ans)     # committed table: [5]=previous row, [999]=new row, []=nothing (= previous state of an empty db)
             if raised is None:
@@ -469,6 +480,9 @@ def run(chk: Check):
         for d in keep:
             shutil.rmtree(d, ignore_errors=True)
     run_sqlite(chk, s1, s2)
+    # the same with a long history: a previous checkpoint of several megabytes of incompressible series (larger than SQLite's page cache),
+    # so that a transaction that is rolled back has really touched the file
+    run_sqlite(chk, big_state(s1, 1500, 11), big_state(s2, 1700, 12), label="long-history")
     chk.extra["exhaustive"] = True
 
 
